@@ -461,6 +461,16 @@ func (fr *Frame) applyContract(b *ssa.BasicBlock, idx int, ins ssa.Instruction, 
 			fr.havocLoc(envPre, m, st)
 		}
 	}
+	// the callee may allocate: the watermark only grows
+	if _, touched := st.comps["WM"]; !touched || st.comps["WM"] == pre.comps["WM"] {
+		if fr.dry {
+			fr.setComp(st, "WM", "Int", "x")
+		} else {
+			nw := u.S.fresh("WM@call", "Int")
+			u.assert("(>= " + nw + " " + u.comp(pre, "WM", "Int") + ")")
+			fr.setComp(st, "WM", "Int", nw)
+		}
+	}
 	var results []*Val
 	if res != nil {
 		rv := fr.freshVal(res.Type(), fr.prefix+res.Name())
@@ -966,6 +976,24 @@ func (fr *Frame) checkLatches() {
 			for _, ph := range phis {
 				latchVals[ph] = fr.val(ph.Edges[pi])
 			}
+			if top := fr.fcTop(); top != nil && fr.parent == nil {
+				for _, cs := range top.Calls {
+					if cs.Callee != "loopback" || cs.Ordinal != li.ordinal {
+						continue
+					}
+					cs.Hit = true
+					// names as they stand at the end of the iteration (just before the back edge)
+					env := fr.localEnv(p, len(p.Instrs), st)
+					for k, cl := range cs.Before {
+						f := env.eval(cl.Expr).S
+						oname := fmt.Sprintf("%s#at:loopback:%d:%s", u.Name, li.ordinal, clauseID(cl, k))
+						if len(li.latches) > 1 {
+							oname += fmt.Sprintf("@%d", p.Index)
+						}
+						u.oblige(oname, "assert", fmt.Sprintf("at the end of every iteration of loop %d: %s", li.ordinal, cl.Text), implies(cond, f), cl)
+					}
+				}
+			}
 			for k, inv := range li.invs {
 				env := fr.loopEnv(b, li, st, latchVals)
 				f := inv.eval(env)
@@ -1053,6 +1081,7 @@ func (fr *Frame) rangeLen(b *ssa.BasicBlock, p *ssa.Phi) ssa.Value {
 func (fr *Frame) loopEnv(b *ssa.BasicBlock, li *loopInfo, st *State, phiVals map[*ssa.Phi]*Val) *SpecEnv {
 	u := fr.u
 	vars := map[string]*Val{}
+	forced := map[string]bool{"iter": true}
 	for _, p := range fr.fn.Params {
 		vars[p.Name()] = fr.val(p)
 	}
@@ -1080,6 +1109,26 @@ func (fr *Frame) loopEnv(b *ssa.BasicBlock, li *loopInfo, st *State, phiVals map
 		}
 		if p.Comment != "" {
 			vars[p.Comment] = v
+			forced[p.Comment] = true
+		}
+	}
+	// iteration counters of enclosing range loops: iter<ordinal>
+	for _, other := range fr.loops {
+		if other == li || !other.blocks[b.Index] {
+			continue
+		}
+		for _, ins := range other.header.Instrs {
+			p, ok := ins.(*ssa.Phi)
+			if !ok {
+				break
+			}
+			if p.Comment == "rangeindex" {
+				if v, defined := fr.vals[p]; defined {
+					n := fmt.Sprintf("iter%d", other.ordinal)
+					vars[n] = &Val{T: mathInt, S: "(+ " + v.S + " 1)", Math: true}
+					forced[n] = true
+				}
+			}
 		}
 	}
 	var pkg *types.Package
@@ -1089,6 +1138,11 @@ func (fr *Frame) loopEnv(b *ssa.BasicBlock, li *loopInfo, st *State, phiVals map
 		pkg = fr.fn.Origin().Pkg.Pkg
 	}
 	env := &SpecEnv{fr: fr, vars: vars, cur: st, old: fr.entrySt, pkg: pkg, errs: &u.problems}
+	env.oldVars = map[string]*Val{}
+	for _, p := range fr.fn.Params {
+		env.oldVars[p.Name()] = fr.val(p)
+	}
+	env.forced = forced
 	env.resolve = func(name string) *Val { return fr.resolveLocal(name, b, st) }
 	return env
 }
@@ -1124,52 +1178,44 @@ func (fr *Frame) resolveLocalAt(name string, at *ssa.BasicBlock, atIdx int, st *
 			}
 		}
 	}
-	// Reaching definition: among all values ever bound to the name (debug references and phis carrying
-	// the variable's name), the one whose definition most closely dominates the start of block at.
+	// Reaching definition: the binding point (debug reference for an assignment / use, or a phi carrying the
+	// variable's name) that most closely dominates the program point.
 	type cand struct {
 		v   ssa.Value
 		blk *ssa.BasicBlock
 		idx int
 	}
 	var cands []cand
-	add := func(v ssa.Value) {
-		switch x := v.(type) {
-		case *ssa.Const:
-			cands = append(cands, cand{v, fr.fn.Blocks[0], -1})
-		case *ssa.Parameter:
-			cands = append(cands, cand{v, fr.fn.Blocks[0], -2})
-		case ssa.Instruction:
-			blk := x.Block()
-			if blk == nil {
+	addAt := func(v ssa.Value, blk *ssa.BasicBlock, idx int) {
+		if blk == at {
+			if idx >= atIdx {
 				return
 			}
-			idx := 0
-			for k, in := range blk.Instrs {
-				if in == x {
-					idx = k
-				}
-			}
-			if blk == at {
-				if _, isPhi := v.(*ssa.Phi); !isPhi && idx >= atIdx {
-					return
-				}
-			} else if !blk.Dominates(at) {
-				return
-			}
-			cands = append(cands, cand{v, blk, idx})
+		} else if !blk.Dominates(at) {
+			return
 		}
+		cands = append(cands, cand{v, blk, idx})
 	}
 	for i := range fr.names[name] {
 		nb := &fr.names[name][i]
 		if !nb.isAddr {
-			add(nb.val)
+			addAt(nb.val, nb.block, nb.idx)
 		}
 	}
 	for _, b := range fr.fn.Blocks {
-		for _, ins := range b.Instrs {
+		for k, ins := range b.Instrs {
 			if p, ok := ins.(*ssa.Phi); ok && p.Comment == name {
-				add(p)
+				if b == at {
+					cands = append(cands, cand{p, b, k - 1000}) // phis of the block itself are defined at its start
+				} else {
+					addAt(p, b, k)
+				}
 			}
+		}
+	}
+	for _, p := range fr.fn.Params {
+		if p.Name() == name {
+			cands = append(cands, cand{p, fr.fn.Blocks[0], -2000})
 		}
 	}
 	var best *cand
@@ -1230,7 +1276,7 @@ func (fr *Frame) callSiteSpecs(b *ssa.BasicBlock, idx int, ins ssa.Instruction, 
 		fmt.Fprintf(os.Stderr, "site %s %d at %s:%d\n", name, n, shortFile(pos.Filename), pos.Line)
 	}
 	for _, cs := range top.Calls {
-		if cs.Callee != name || cs.Ordinal != n {
+		if cs.Callee != name || (cs.Ordinal != n && cs.Ordinal != 0) {
 			continue
 		}
 		cs.Hit = true
@@ -1239,10 +1285,22 @@ func (fr *Frame) callSiteSpecs(b *ssa.BasicBlock, idx int, ins ssa.Instruction, 
 			for _, a := range cc.Args {
 				env.callArgs = append(env.callArgs, fr.val(a))
 			}
+		} else if r, ok := ins.(*ssa.Return); ok {
+			for _, a := range r.Results {
+				env.callArgs = append(env.callArgs, fr.val(a))
+			}
+		}
+		for _, cl := range cs.Assume {
+			// ghost definition assumed just before this site (listed as an assumption)
+			u.assert(implies(reach, env.eval(cl.Expr).S))
+			u.note("ghost definition assumed in %s before %s %d: %s", fr.fn.Name(), name, n, cl.Text)
 		}
 		for k, cl := range cs.Before {
 			f := env.eval(cl.Expr).S
 			oname := fmt.Sprintf("%s#at:%s:%d:%s", u.Name, name, n, clauseID(cl, k))
+			if cs.Ordinal == 0 {
+				oname = fmt.Sprintf("%s#at:%s:all:%s@%d", u.Name, name, clauseID(cl, k), n)
+			}
 			u.oblige(oname, "assert", fmt.Sprintf("at call %d of %s: %s", n, name, cl.Text), implies(reach, f), cl)
 			u.assert(implies(reach, f))
 		}
@@ -1261,6 +1319,10 @@ func (fr *Frame) localEnv(b *ssa.BasicBlock, idx int, st *State) *SpecEnv {
 		pkg = fr.fn.Pkg.Pkg
 	}
 	env := &SpecEnv{fr: fr, vars: vars, cur: st, old: fr.entrySt, pkg: pkg, errs: &u.problems}
+	env.oldVars = map[string]*Val{}
+	for _, p := range fr.fn.Params {
+		env.oldVars[p.Name()] = fr.val(p)
+	}
 	env.resolve = func(name string) *Val { return fr.resolveLocalAt(name, b, idx, st) }
 	return env
 }
@@ -1309,4 +1371,28 @@ func (fr *Frame) siteOrdinal(name string, ins ssa.Instruction) int {
 		}
 	}
 	return fr.siteOrd[ins]
+}
+
+// afterCall: ghost definitions ("at <callee> n / assume <expr>") take effect right after the call.
+func (fr *Frame) afterCall(b *ssa.BasicBlock, idx int, ins ssa.Instruction, st *State, reach string) {
+	top := fr.fcTop()
+	if top == nil || fr.dry || fr.parent != nil || len(top.Calls) == 0 {
+		return
+	}
+	name := siteName(ins)
+	if name == "" {
+		return
+	}
+	n := fr.siteOrdinal(name, ins)
+	for _, cs := range top.Calls {
+		if cs.Callee != name || cs.Ordinal != n || len(cs.Assume) == 0 {
+			continue
+		}
+		cs.Hit = true
+		env := fr.localEnv(b, idx, st)
+		for _, cl := range cs.Assume {
+			fr.u.assert(implies(reach, env.eval(cl.Expr).S))
+			fr.u.note("ghost definition assumed in %s after %s: %s", fr.fn.Name(), name, cl.Text)
+		}
+	}
 }
